@@ -62,11 +62,12 @@ enum OpKind
     OP_DESTROY,
     OP_MUTATE,
     OP_FILL,  // macro: emplace_back until capacity or budget is exhausted (adversarial splits)
+    OP_RESEAT,  // assign a new position to iterator objects that outlived earlier states of the pool, read through them
     OP_COUNT
 };
 
 const char* OP_NAME[OP_COUNT] = {"construct", "default_construct", "emplace_back", "pop_back", "erase_pos", "erase_range", "clear", "reserve",
-                                 "copy_construct", "move_construct", "copy_assign", "move_assign", "swap", "destroy", "mutate", "fill"};
+                                 "copy_construct", "move_construct", "copy_assign", "move_assign", "swap", "destroy", "mutate", "fill", "iterator_reseat"};
 
 struct Profile
 {
@@ -84,7 +85,7 @@ Profile make_profile(const std::string& name)
     };
     // uniform (C01 and the layout / lifetime / ledger monitors)
     set({{OP_CONSTRUCT, 6}, {OP_DEFAULT_CONSTRUCT, 1}, {OP_EMPLACE_BACK, 30}, {OP_POP_BACK, 6}, {OP_ERASE_POS, 10}, {OP_ERASE_RANGE, 7}, {OP_CLEAR, 3}, {OP_RESERVE, 9},
-         {OP_COPY_CONSTRUCT, 3}, {OP_MOVE_CONSTRUCT, 3}, {OP_COPY_ASSIGN, 4}, {OP_MOVE_ASSIGN, 4}, {OP_SWAP, 3}, {OP_DESTROY, 3}, {OP_MUTATE, 6}, {OP_FILL, 2}});
+         {OP_COPY_CONSTRUCT, 3}, {OP_MOVE_CONSTRUCT, 3}, {OP_COPY_ASSIGN, 4}, {OP_MOVE_ASSIGN, 4}, {OP_SWAP, 3}, {OP_DESTROY, 3}, {OP_MUTATE, 6}, {OP_FILL, 2}, {OP_RESEAT, 4}});
     if (name == "budget")  // C02: fill to exactly N elements / B bytes, erase / refill cycles
         set({{OP_FILL, 14}, {OP_EMPLACE_BACK, 20}, {OP_ERASE_POS, 12}, {OP_ERASE_RANGE, 8}, {OP_RESERVE, 8}, {OP_CONSTRUCT, 10}, {OP_DESTROY, 6}, {OP_MUTATE, 2}});
     else if (name == "copymove")  // C09 C08 C05 C07
@@ -163,7 +164,7 @@ struct Engine
     } cf;
     uint64_t digest = 0;  // observation digest for the junk differential
 
-    bool stateless() const { return K::ALWAYS_EQUAL; }
+    bool stateless() const { return !K::HAS_IDENTITY; }
     int pick_arena() { return stateless() ? 0 : static_cast<int>(rng.range(1, 2)); }
 
     static std::string death_props(OpKind k, const MVec* a, const MVec* b)
@@ -174,6 +175,7 @@ struct Engine
             case OP_CONSTRUCT: case OP_EMPLACE_BACK: case OP_POP_BACK: case OP_ERASE_POS: case OP_ERASE_RANGE: case OP_CLEAR: case OP_FILL: case OP_MUTATE: p += ",C01"; break;
             case OP_RESERVE: p += ",C01,C10"; break;
             case OP_COPY_CONSTRUCT: case OP_MOVE_CONSTRUCT: case OP_COPY_ASSIGN: case OP_MOVE_ASSIGN: case OP_SWAP: p += ",C09"; break;
+            case OP_RESEAT: p += ",C11,C04"; break;
             default: break;
         }
         if (!Cfg::ALL_TRIVIALLY_COPYABLE) p += ",C06";
@@ -486,9 +488,10 @@ struct Engine
     {
         MVec& m = s[i].m;
         MElem e = gen_elem(m, style);
-        begin_op(OP_EMPLACE_BACK, i, -1, fmt("v%d,id=%" PRIu64 ",counts=%s", i, e.id, jarr_num(counts_of(e)).c_str()));
+        const int form = rng.chance(1, 4) ? static_cast<int>(rng.range(1, 2)) : 0;  // source form, see Glue::emplace_back
+        begin_op(OP_EMPLACE_BACK, i, -1, fmt("v%d,id=%" PRIu64 ",counts=%s,src=%d", i, e.id, jarr_num(counts_of(e)).c_str(), form));
         const auto a = before();
-        G::emplace_back(*s[i].v, e);
+        G::emplace_back(*s[i].v, e, form);
         m.e.push_back(std::move(e));
         m.ever_held = true;
         no_allocator_traffic(a, "emplace_back within capacity");
@@ -841,7 +844,7 @@ struct Engine
                 if (sm.e.size() > dm.e.size()) cf.assign_grow = true;
                 if (sm.e.size() < dm.e.size()) cf.assign_shrink = true;
                 if (!sm.e.empty() && sm.e.size() < sm.cap && !dm.e.empty()) cf.partial_source_nonempty_target = true;
-                if (sm.arena != dm.arena) cf.unequal_arena_transfer = cf.overlap_reloc_or_unequal_transfer = true;
+                if (!K::ALWAYS_EQUAL && sm.arena != dm.arena) cf.unequal_arena_transfer = cf.overlap_reloc_or_unequal_transfer = true;
             }
             {
                 LibCall lc;
@@ -883,7 +886,7 @@ struct Engine
             if (sm.e.size() > dm.e.size()) cf.assign_grow = true;
             if (sm.e.size() < dm.e.size()) cf.assign_shrink = true;
             if (!sm.e.empty() && sm.e.size() < sm.cap && !dm.e.empty()) cf.partial_source_nonempty_target = true;
-            if (sm.arena != dm.arena) cf.unequal_arena_transfer = cf.overlap_reloc_or_unequal_transfer = true;
+            if (!K::ALWAYS_EQUAL && sm.arena != dm.arena) cf.unequal_arena_transfer = cf.overlap_reloc_or_unequal_transfer = true;
         }
         const uint64_t moves_before = registry().move_constructed;
         {
@@ -1010,6 +1013,76 @@ struct Engine
         check_all("mutate");
     }
 
+    // Iterator objects that live as long as the engine: they outlive reallocation, assignment and destruction of the vectors
+    // they pointed into. Assigning a new position to such an object (a valid use of an invalidated iterator) must make it
+    // denote the new element completely: values, span counts and data() (C11, C04).
+    typename Vec::const_iterator persist_cit{};
+    typename Vec::iterator persist_it{};
+
+    void op_reseat(int i)
+    {
+        MVec& m = s[i].m;
+        Vec& vec = *s[i].v;
+        const size_t idx = static_cast<size_t>(rng.below(m.e.size()));
+        const int form = static_cast<int>(rng.below(5));
+        static const char* const names[] = {"const_iterator = iterator", "const_iterator = const_iterator", "iterator = iterator; const_iterator = it", "fresh const_iterator = iterator", "iterator = iterator"};
+        begin_op(OP_RESEAT, i, -1, fmt("v%d,idx=%zu,form=%s", i, idx, names[form]));
+        const auto a = before();
+        const auto off = static_cast<std::ptrdiff_t>(idx);
+        bool via_mutable = false;
+        {
+            LibCall lc;
+            switch (form)
+            {
+                case 0: persist_cit = vec.begin() + off; break;
+                case 1: persist_cit = std::as_const(vec).begin() + off; break;
+                case 2:
+                    persist_it = vec.begin() + off;
+                    persist_cit = persist_it;
+                    break;
+                case 3:
+                {
+                    typename Vec::const_iterator fresh{};
+                    fresh = vec.begin() + off;
+                    persist_cit = fresh;
+                    break;
+                }
+                default:
+                    persist_it = vec.begin() + off;
+                    via_mutable = true;
+                    break;
+            }
+        }
+        const auto& cv = std::as_const(vec);
+        auto inspect = [&](const auto& it, const char* what)
+        {
+            if (it.index() != idx || (it - typename std::decay_t<decltype(it)>(cv.begin() + 0)) != off)
+                viol("C11", "reseated_iterator_index", fmt("%s: index() == %zu after assigning the position %zu", what, it.index(), idx));
+            const auto ref = *it;
+            const auto want = G::addresses(cv[idx]);
+            const auto have = G::addresses(ref);
+            for (size_t k = 0; k < NF; ++k)
+                if (want[k].begin != have[k].begin || want[k].count != have[k].count)
+                {
+                    viol("C11,C04", "reseated_iterator_denotes_other_storage", fmt("%s: field %zu through the re-assigned iterator is [%#zx, %zu items), through operator[] it is [%#zx, %zu items)", what, k, size_t(have[k].begin), have[k].count, size_t(want[k].begin), want[k].count));
+                    return;
+                }
+            if (reinterpret_cast<uintptr_t>(it.data()) != reinterpret_cast<uintptr_t>(cv[idx].data_begin()))
+                viol("C11,C04", "reseated_iterator_data", fmt("%s: data() differs from data_begin() of the element it was assigned", what));
+            const MElem got = G::read(ref);
+            if (!elem_match(m.e[idx], got)) viol("C11", "reseated_iterator_value_mismatch", fmt("%s: got %s expected %s", what, elem_str(got).c_str(), elem_str(m.e[idx]).c_str()));
+        };
+        if (via_mutable)
+            inspect(persist_it, names[form]);
+        else
+            inspect(persist_cit, names[form]);
+        if (form == 2 && !(persist_cit == typename Vec::const_iterator(persist_it))) viol("C11", "reseated_iterator_compare", "const_iterator assigned from an iterator does not compare equal to it");
+        no_allocator_traffic(a, "iterator assignment");
+        stable(a, i, "iterator assignment");
+        ++cf.quiet_streak;
+        check_all("iterator_reseat");
+    }
+
     // --------------------------------------------------------------------------------------------- driver
     int pick_slot(const std::function<bool(const Slot&)>& pred)
     {
@@ -1070,6 +1143,7 @@ struct Engine
             case OP_SWAP: { int x = pick_slot(exists), y = pick_slot(exists); if (x >= 0 && y >= 0 && swap_allowed(x, y)) op_swap(x, y); break; }
             case OP_DESTROY: { int i = pick_slot(exists); if (i >= 0) op_destroy(i); break; }
             case OP_MUTATE: { int i = pick_slot(nonempty); if (i >= 0) op_mutate(i); break; }
+            case OP_RESEAT: { int i = pick_slot(nonempty); if (i >= 0) op_reseat(i); break; }
         }
     }
 
